@@ -307,6 +307,27 @@ class Check:
         self.cov["disagreements_checked"] += len(problems)
         return problems
 
+    def kcompare(self, tag, exe, component, histories, impl_args=(), model_args=(), env=None, keep_head=1,
+                 what="", max_reports=2, chunk=4000, known_key_fn=None, timeout=900):
+        """Corpus first, then the generated histories; shrink and report the first few divergences
+        (API-visible ones preferred).  Returns the number of problems seen."""
+        allh = [ls for _, ls in self.corpus()] + list(histories)
+        problems = []
+        for i in range(0, len(allh), chunk):
+            part = allh[i:i + chunk]
+            for (k, kind, detail) in self.run_histories("%s%d" % (tag, i // chunk), exe, component, part, impl_args, model_args, env, timeout):
+                problems.append((i + k, kind, detail))
+            if len([p for p in problems if p[1] != "wb"]) >= max_reports: break
+        problems.sort(key=lambda p: (p[1] == "wb", len(allh[p[0]])))
+        reported = 0
+        for (k, kind, detail) in problems:
+            if reported >= max_reports: break
+            kk = known_key_fn(allh[k], kind) if known_key_fn else None
+            r = self.report_divergence(tag, exe, component, allh[k], kind, detail, impl_args, model_args, env,
+                                       keep_head=keep_head, what=what, known_key=kk)
+            if r: reported += 1
+        return len(problems)
+
     def diverges(self, exe, component, history, impl_args=(), model_args=(), env=None):
         """Run one history alone; return None if both sides agree, else (kind, report)."""
         sp = self.write_script("shrink.script", history)
